@@ -33,6 +33,10 @@ const extra = [
   'Infinity', '+Infinity', '-Infinity', ' Infinity ', 'Infinityx', 'Infinit', 'infinity', 'INFINITY', 'inf', 'Inf', 'INF', '-inf', '+inf', 'nan', 'NaN', 'NAN', '-nan',
   'Infinity1', '-Infinity e', 'InfinityInfinity', '1Infinity', '1,2', '1 2', '1_0', '1__0', '12px', 'px12', '1-2', '1+2', '1e5.5', '1ee5', '1e', '1e+', '1e-', '.', '+', '-', '+.', '-.', 'e5', '.e5', '--1', '++1', '+-1', '-+1',
   '\u00851', '1\u0085', '᠎1', '1᠎', '​1', '﻿1﻿', ' 1 ', ' 1', ' 1 ', ' 1 ', ' 1 ', '　1', '\t\n\v\f\r 1',
+  '0x+10', '0X+ff', '0o+17', '0b+11', '0x-1', '0b-1', '0o-7', '0x+', '0x-', '0x++1', ' 0x+A ', '0xffffffffffffffff', '0x10000000000000000', '0xfffffffffffffffff',
+  '0o1777777777777777777777', '0o2000000000000000000000', '0o7777777777777777777777', '0o17777777777777777777777', '0o777777777777777777777', '0o3777777777777777777777',
+  '0b' + '1'.repeat(63), '0b' + '1'.repeat(64), '0b' + '1'.repeat(65), '0b1' + '0'.repeat(63), '0b1' + '0'.repeat(64), '0x' + 'f'.repeat(15), '0x' + 'f'.repeat(16), '0x' + 'f'.repeat(17), '0x1' + '0'.repeat(16),
+  '5.e3', '2.E-1', '-4.e+1', '1.e2px', '5.e', '5.e+', '.e3', '0.3', '0.10000000000000002', '1.0000000000000002', '0.9999999999999999', '0.30000000000000004', '1e-5', '0.00001', '0.00005', '1e-4',
   '١', '١٢', '１', '1١', '١٢٣', '1\u0000', '\u00001', '1\n2', 'true', 'false', 'null', 'undefined', '[object Object]', ',', ',,', '1,', ',1',
 ];
 for (const s of extra) strings.add(s);
@@ -73,9 +77,9 @@ const values = [
   '""', '" "', '"  "', '"\\t\\n"', '"0"', '"1"', '" 1 "', '"1.0"', '"1e0"', '"1.5"', '"01"', '"+1"', '"-1"', '"--1"', '"1 "', '"\\n1\\t"', '"\\u00a01"', '"\\ufeff1"', '"\\u00851"', '"\\u180e1"',
   '"0x10"', '"0X1f"', '"0xff"', '"0o10"', '"0b11"', '"-0x10"', '"0x"', '"Infinity"', '"-Infinity"', '"+Infinity"', '"infinity"', '"inf"', '"-inf"', '"nan"', '"NaN"',
   '"null"', '"true"', '"false"', '"a"', '"b"', '"A"', '"ab"', '"abc"', '"10"', '"9"', '"2"', '"12"', '"100000"', '"1e5"', '"1E5"', '"1e"', '"1e+"', '".5"', '"5."', '"."', '"1,2"', '","', '",,"', '"1,"', '"[object Object]"',
-  '"[object Object],[object Object]"', '"1 2"', '"1_0"', '"12px"', '"é"', '"e"', '"日本"', '"日"', '"😀"', '"z"', '"~"', '"1e21"', '"1e-7"', '"0.5"', '"1e1000"', '"-1e1000"', '"9007199254740993"', '"a,b"', '"true,false"', '"0,0"', '"-0"', '"+0"', '"0.0"',
+  '"[object Object],[object Object]"', '"\ud83d\ude00"', '"\uf600"', '"\uff21"', '"A"', '"\ud800\udc41"', '"0.3"', '0.3', '"0.30000000000000004"', '"0.1"', '0.10000000000000002', '"1 2"', '"1_0"', '"12px"', '"é"', '"e"', '"日本"', '"日"', '"😀"', '"z"', '"~"', '"1e21"', '"1e-7"', '"0.5"', '"1e1000"', '"-1e1000"', '"9007199254740993"', '"a,b"', '"true,false"', '"0,0"', '"-0"', '"+0"', '"0.0"',
   '[]', '[0]', '[1]', '["1"]', '[1,2]', '[[]]', '[[1]]', '[null]', '[null,null]', '[""]', '[true]', '[false]', '["a"]', '[[1,2]]', '[{}]', '[10]', '[9]', '[1,[2]]', '["a","b"]', '[2]', '[12]', '[" 1 "]', '["0x10"]', '[0.5]', '[1.5]',
-  '[[[]]]', '[[],[]]', '[null,1]', '[1,null]', '["é"]', '[true,false]', '[0,0]', '[-1]', '["Infinity"]', '[[null]]', '[{},{}]', '["abc"]', '[100000]',
+  '[{"k":"v"}]', '[["[object Object]"]]', '["[object Object]"]', '[[{}]]', '[0.3]', '[[[]]]', '[[],[]]', '[null,1]', '[1,null]', '["é"]', '[true,false]', '[0,0]', '[-1]', '["Infinity"]', '[[null]]', '[{},{}]', '["abc"]', '[100000]',
   '{}', '{"a":1}', '{"a":{"b":2}}', '{"a":1,"b":2}', '{"":0}',
 ];
 const cpCompare = (a, b) => {
